@@ -107,6 +107,19 @@ Definition win_byte (st : wst) (acc : list byte) (c : byte) : option (wst * list
   else
     Some (mk_wst (w_last st) false nl (w_dup st) (w_home st) (w_prehome st), acc).
 
+(* The duplicate test of [win_byte] reads bytes[len(bytes)-1].  [win_reads_last guarded st acc c]:
+   this iteration gets as far as evaluating that index expression, where [guarded] says whether
+   `len(bytes) > 0 &&` stands in front of it in the condition (Gen.Consts.win_dup_guard_nonempty;
+   [win_byte] above is written for guarded = true, pinned in Proofs/NoiseWin.v).
+   [win_index_panics]: ... and the accumulator is empty, i.e. the index is -1. *)
+Definition win_reads_last (guarded : bool) (st : wst) (acc : list byte) (c : byte) : bool :=
+  negb (c =? Consts.win_interrupt) && negb (w_skip st) && negb (c =? Consts.win_esc) &&
+  is_trzsz_letter c && w_dup st &&
+  (if c =? Consts.win_newline then true else w_nl st) &&
+  (if guarded then nonempty acc else true).
+Definition win_index_panics (guarded : bool) (st : wst) (acc : list byte) (c : byte) : bool :=
+  win_reads_last guarded st acc c && negb (nonempty acc).
+
 Fixpoint win_fold (st : wst) (acc : list byte) (l : list byte) : option (wst * list byte) :=
   match l with
   | [] => Some (st, acc)
